@@ -113,36 +113,37 @@ static bool presentable(uint32_t c)
 struct ArchRow
 {
     const char* name;
-    bool (*reported)(const xsimd::detail::supported_arch&);
+    bool (*reported)(const xsimd::detail::supported_arch&); // has(arch) OR the public data member of the same architecture: both are read by users
+    bool (*consistent)(const xsimd::detail::supported_arch&); // has(arch) == data member
     int own[3]; // feature bits that must be set (-1 terminated)
     int state; // 0 xmm, 1 ymm, 2 zmm+opmask
     int parent; // index of the extension parent in this table (-1 none)
 };
-#define REP(EXPR) [](const xsimd::detail::supported_arch& s) -> bool { return s.has(EXPR); }
+#define REP(EXPR, FIELD) [](const xsimd::detail::supported_arch& s) -> bool { return s.has(EXPR) || s.FIELD; }, [](const xsimd::detail::supported_arch& s) -> bool { return s.has(EXPR) == (s.FIELD != 0); }
 static const ArchRow kArch[] = {
-    /* 0*/ { "sse2", REP(xsimd::sse2 {}), { F_SSE2, -1, -1 }, 0, -1 },
-    /* 1*/ { "sse3", REP(xsimd::sse3 {}), { F_SSE3, -1, -1 }, 0, 0 },
-    /* 2*/ { "ssse3", REP(xsimd::ssse3 {}), { F_SSSE3, -1, -1 }, 0, 1 },
-    /* 3*/ { "sse4_1", REP(xsimd::sse4_1 {}), { F_SSE41, -1, -1 }, 0, 2 },
-    /* 4*/ { "sse4_2", REP(xsimd::sse4_2 {}), { F_SSE42, -1, -1 }, 0, 3 },
-    /* 5*/ { "fma3<sse4_2>", REP(xsimd::fma3<xsimd::sse4_2> {}), { F_FMA, -1, -1 }, 1, 4 },
-    /* 6*/ { "avx", REP(xsimd::avx {}), { F_AVX, -1, -1 }, 1, 4 },
-    /* 7*/ { "fma3<avx>", REP(xsimd::fma3<xsimd::avx> {}), { F_FMA, F_AVX, -1 }, 1, 6 },
-    /* 8*/ { "fma4", REP(xsimd::fma4 {}), { F_FMA4, -1, -1 }, 1, 4 },
-    /* 9*/ { "avx2", REP(xsimd::avx2 {}), { F_AVX2, -1, -1 }, 1, 6 },
-    /*10*/ { "fma3<avx2>", REP(xsimd::fma3<xsimd::avx2> {}), { F_FMA, F_AVX2, -1 }, 1, 9 },
-    /*11*/ { "avxvnni", REP(xsimd::avxvnni {}), { F_AVXVNNI, -1, -1 }, 1, 9 },
-    /*12*/ { "avx512f", REP(xsimd::avx512f {}), { F_512F, -1, -1 }, 2, 9 },
-    /*13*/ { "avx512cd", REP(xsimd::avx512cd {}), { F_512CD, -1, -1 }, 2, 12 },
-    /*14*/ { "avx512dq", REP(xsimd::avx512dq {}), { F_512DQ, -1, -1 }, 2, 13 },
-    /*15*/ { "avx512bw", REP(xsimd::avx512bw {}), { F_512BW, -1, -1 }, 2, 14 },
-    /*16*/ { "avx512er", REP(xsimd::avx512er {}), { F_512ER, -1, -1 }, 2, 13 },
-    /*17*/ { "avx512pf", REP(xsimd::avx512pf {}), { F_512PF, -1, -1 }, 2, 16 },
-    /*18*/ { "avx512ifma", REP(xsimd::avx512ifma {}), { F_512IFMA, -1, -1 }, 2, 15 },
-    /*19*/ { "avx512vbmi", REP(xsimd::avx512vbmi {}), { F_512VBMI, -1, -1 }, 2, 18 },
-    /*20*/ { "avx512vbmi2", REP(xsimd::avx512vbmi2 {}), { F_512VBMI2, -1, -1 }, 2, 19 },
-    /*21*/ { "avx512vnni<avx512bw>", REP(xsimd::avx512vnni<xsimd::avx512bw> {}), { F_512VNNI, -1, -1 }, 2, 15 },
-    /*22*/ { "avx512vnni<avx512vbmi2>", REP(xsimd::avx512vnni<xsimd::avx512vbmi2> {}), { F_512VNNI, F_512VBMI2, -1 }, 2, 20 },
+    /* 0*/ { "sse2", REP(xsimd::sse2 {}, sse2), { F_SSE2, -1, -1 }, 0, -1 },
+    /* 1*/ { "sse3", REP(xsimd::sse3 {}, sse3), { F_SSE3, -1, -1 }, 0, 0 },
+    /* 2*/ { "ssse3", REP(xsimd::ssse3 {}, ssse3), { F_SSSE3, -1, -1 }, 0, 1 },
+    /* 3*/ { "sse4_1", REP(xsimd::sse4_1 {}, sse4_1), { F_SSE41, -1, -1 }, 0, 2 },
+    /* 4*/ { "sse4_2", REP(xsimd::sse4_2 {}, sse4_2), { F_SSE42, -1, -1 }, 0, 3 },
+    /* 5*/ { "fma3<sse4_2>", REP(xsimd::fma3<xsimd::sse4_2> {}, fma3_sse42), { F_FMA, -1, -1 }, 1, 4 },
+    /* 6*/ { "avx", REP(xsimd::avx {}, avx), { F_AVX, -1, -1 }, 1, 4 },
+    /* 7*/ { "fma3<avx>", REP(xsimd::fma3<xsimd::avx> {}, fma3_avx), { F_FMA, F_AVX, -1 }, 1, 6 },
+    /* 8*/ { "fma4", REP(xsimd::fma4 {}, fma4), { F_FMA4, -1, -1 }, 1, 4 },
+    /* 9*/ { "avx2", REP(xsimd::avx2 {}, avx2), { F_AVX2, -1, -1 }, 1, 6 },
+    /*10*/ { "fma3<avx2>", REP(xsimd::fma3<xsimd::avx2> {}, fma3_avx2), { F_FMA, F_AVX2, -1 }, 1, 9 },
+    /*11*/ { "avxvnni", REP(xsimd::avxvnni {}, avxvnni), { F_AVXVNNI, -1, -1 }, 1, 9 },
+    /*12*/ { "avx512f", REP(xsimd::avx512f {}, avx512f), { F_512F, -1, -1 }, 2, 9 },
+    /*13*/ { "avx512cd", REP(xsimd::avx512cd {}, avx512cd), { F_512CD, -1, -1 }, 2, 12 },
+    /*14*/ { "avx512dq", REP(xsimd::avx512dq {}, avx512dq), { F_512DQ, -1, -1 }, 2, 13 },
+    /*15*/ { "avx512bw", REP(xsimd::avx512bw {}, avx512bw), { F_512BW, -1, -1 }, 2, 14 },
+    /*16*/ { "avx512er", REP(xsimd::avx512er {}, avx512er), { F_512ER, -1, -1 }, 2, 13 },
+    /*17*/ { "avx512pf", REP(xsimd::avx512pf {}, avx512pf), { F_512PF, -1, -1 }, 2, 16 },
+    /*18*/ { "avx512ifma", REP(xsimd::avx512ifma {}, avx512ifma), { F_512IFMA, -1, -1 }, 2, 15 },
+    /*19*/ { "avx512vbmi", REP(xsimd::avx512vbmi {}, avx512vbmi), { F_512VBMI, -1, -1 }, 2, 18 },
+    /*20*/ { "avx512vbmi2", REP(xsimd::avx512vbmi2 {}, avx512vbmi2), { F_512VBMI2, -1, -1 }, 2, 19 },
+    /*21*/ { "avx512vnni<avx512bw>", REP(xsimd::avx512vnni<xsimd::avx512bw> {}, avx512vnni_bw), { F_512VNNI, -1, -1 }, 2, 15 },
+    /*22*/ { "avx512vnni<avx512vbmi2>", REP(xsimd::avx512vnni<xsimd::avx512vbmi2> {}, avx512vnni_vbmi2), { F_512VNNI, F_512VBMI2, -1 }, 2, 20 },
 };
 static const int kNArch = sizeof(kArch) / sizeof(kArch[0]);
 
@@ -191,6 +192,12 @@ static bool judge(uint32_t c, const xsimd::detail::supported_arch& s, Verdict& v
     {
         const bool rep = kArch[i].reported(s);
         const bool req = own_bits(c, kArch[i]) && state_enabled(c, kArch[i].state);
+        if (!kArch[i].consistent(s))
+        {
+            v.arch = i;
+            v.why = std::string(kArch[i].name) + ": has(arch) and the data member of supported_arch for the same architecture disagree";
+            return false;
+        }
         if (rep && !req)
         {
             v.arch = i;
